@@ -50,6 +50,37 @@ CHECKS = {
         note=_STATIC_NOTE + " Not decided: XSD validity of printed spellings and value-level acceptance of every lexical form.",
         technique="static analysis: vocabulary/table extraction with doc cross-check, may-raise fixpoint per converter, def-use taint to lexical sinks",
     ),
+    "C01": dict(
+        text="Static discharge of writer/reader agreement clauses (necessary for any round trip): kind totality over XmlType across builder, metadata "
+        "buckets, serializer iteration and parser lookups; agreement of conversion parameters on both directions; xsi:nil/xsi:type marker and wrapper "
+        "symmetry; balanced event grammar; declare-before-use of prefixes.",
+        design_ref="DESIGN.md section 4 C01",
+        note=_STATIC_NOTE + " Not decided: equality of the reparsed object for all models x instances x configurations.",
+        technique="static analysis: vocabulary/table agreement (set equality), effective-argument extraction at call sites, CFG control dependence, Dyck path check",
+    ),
+    "C10": dict(
+        text="Static discharge: every strictness failure is control-dependent (with polarity) on its fail_on_* flag and the false branch continues to the "
+        "tolerant behaviour; xsi exemption; SkipNode effect-freedom; def-use proof that the unconverted value is what parse_var returns on failure; "
+        "flag liveness and strict candidate configs.",
+        design_ref="DESIGN.md section 4 C10",
+        note=_STATIC_NOTE + " Not decided: object equality after skipping arbitrary subtrees for all documents.",
+        technique="static analysis: CFG control dependence with polarity (edge-removal reachability), effect (mutation) analysis, def-use",
+    ),
+    "C14": dict(
+        text="Static discharge of the shared-state write discipline that history independence rests on: inventory of every mutation site of persistent "
+        "objects, publish-after-compute, memo-key completeness and dependency invalidation, recorder isolation, purity of memoised functions, immutability "
+        "of shared singletons and cached metadata, untouched caller arguments.",
+        design_ref="DESIGN.md section 4 C14",
+        note=_STATIC_NOTE + " One known finding (F13, memo key of XmlContext.build) is listed in known_findings.json. Not decided: call-by-call equality for all histories.",
+        technique="static analysis: may-mutate site inventory with alias tracking, def-use flow from parameters to memo keys/values, who-may-write rules",
+    ),
+    "C19": dict(
+        text="Static discharge that no structure shared between threads is observable half-built: every shared-state write site is an atomic publish of a value "
+        "computed into locals (or a designated single-threaded writer), no inserting reads on defaultdict indexes, no mutation through aliases, no shared scratch.",
+        design_ref="DESIGN.md section 4 C19",
+        note=_STATIC_NOTE + " Atomicity of a single dict/list/attribute store (CPython) is the trusted base. Not decided: results under real interleavings; XML libraries' thread-safety.",
+        technique="static analysis: shared-state write-pattern classification (publish vs in-place rebuild), alias analysis of shared containers, read-pattern checks",
+    ),
 }
 
 NOT_APPLICABLE = [
